@@ -2681,20 +2681,34 @@ ABTU_ret_err int ABTI_thread_handle_request_migrate(ABTI_global *p_global,
         ABTI_thread_get_mig_data(p_global, p_local, p_thread, &p_mig_data);
     ABTI_CHECK_ERROR(abt_errno);
 
-    /* Extracting an argument embedded in a migration request. */
-    ABTI_pool *p_pool =
-        ABTD_atomic_relaxed_load_ptr(&p_mig_data->p_migration_pool);
+    /* Unset the migration request first.  A request that is issued from now on
+     * (by another execution stream, an external thread, or the callback below)
+     * sets it again and is served at the next scheduling point; unsetting it
+     * after the callback would erase such a request. */
+    ABTI_thread_unset_request(p_thread, ABTI_THREAD_REQ_MIGRATE);
+
+    /* Extracting (and consuming) an argument embedded in a migration request. */
+    ABTI_pool *p_pool = (ABTI_pool *)
+        ABTD_atomic_exchange_ptr(&p_mig_data->p_migration_pool, NULL);
+    if (!p_pool) {
+        /* This request has already been served together with an earlier one. */
+        return ABT_SUCCESS;
+    }
 
     /* Change the associated pool */
     abt_errno = ABTI_thread_set_associated_pool(p_global, p_thread, p_pool);
-    ABTI_CHECK_ERROR(abt_errno);
+    if (ABTI_IS_ERROR_CHECK_ENABLED && abt_errno != ABT_SUCCESS) {
+        /* Keep the request pending unless a newer one has been issued. */
+        ABTD_atomic_bool_cas_strong_ptr(&p_mig_data->p_migration_pool, NULL,
+                                        (void *)p_pool);
+        ABTI_thread_set_request(p_thread, ABTI_THREAD_REQ_MIGRATE);
+        ABTI_HANDLE_ERROR(abt_errno);
+    }
     /* Call a callback function */
     if (p_mig_data->f_migration_cb) {
         ABT_thread thread = ABTI_thread_get_handle(p_thread);
         p_mig_data->f_migration_cb(thread, p_mig_data->p_migration_cb_arg);
     }
-    /* Unset the migration request. */
-    ABTI_thread_unset_request(p_thread, ABTI_THREAD_REQ_MIGRATE);
     return ABT_SUCCESS;
 }
 
